@@ -71,9 +71,9 @@ func main() {
 	}
 	loadS := time.Since(t0).Seconds()
 
-	timeout := 10
+	timeout := 25
 	if *tier == "thorough" {
-		timeout = 60
+		timeout = 90
 	}
 	if *work == "" {
 		d, _ := os.MkdirTemp("", "govc")
